@@ -36,11 +36,15 @@ _POST = {
         "all({hist}[t] == {rev}[t + 1] - {rev}[t] for t in range(0, len({hist})))",
     "data-area-is-the-sort-order":
         "all({rev}[len({hist}) + 1 + k] == {s}[k] for k in range(0, len({s})))",
+    "offsets-non-decreasing":
+        "all({rev}[t] <= {rev}[t + 1] for t in range(0, len({hist})))",
+    "data-area-by-position":
+        "all({rev}[p] == {s}[p - len({hist}) - 1] for p in range(len({hist}) + 1, len({rev})))",
 }
 _INV = {
     "progress": "0 <= {i} and {i} <= len({s}) and {offsetrel} and -1 <= binnum_old and binnum_old < len({hist})"
                 " and len({rev}) == len({s}) + len({hist}) + 1",
-    "data-area": "all({rev}[len({hist}) + 1 + k] == {s}[k] for k in range(0, {i}))",
+    "data-area": "all({rev}[p] == {s}[p - len({hist}) - 1] for p in range(len({hist}) + 1, len({hist}) + 1 + {i}))",
     "counted-prefix": "len({hist}) + 1 <= end_offset and end_offset <= len({hist}) + 1 + {i}"
                       " and all(binof({data}[{s}[k]], {dmin}, binsize) < len({hist}) for k in range(0, end_offset - len({hist}) - 1))"
                       " and all(binof({data}[{s}[k]], {dmin}, binsize) >= len({hist}) for k in range(end_offset - len({hist}) - 1, {i}))",
@@ -49,6 +53,7 @@ _INV = {
                 "     and binof({data}[{s}[end_offset - len({hist}) - 2]], {dmin}, binsize) == binnum_old)",
     "offsets": "all(Start({data}, {s}, {dmin}, binsize, t, {rev}[t] - len({hist}) - 1) and {rev}[t] < end_offset"
                " for t in range(0, binnum_old + 1))",
+    "ascending": "all({rev}[t] <= {rev}[t + 1] for t in range(0, binnum_old))",
     "counts": "all({hist}[t] == {rev}[t + 1] - {rev}[t] for t in range(0, binnum_old))"
               " and (binnum_old < 0 or {hist}[binnum_old] == end_offset - {rev}[binnum_old])"
               " and all({hist}[t] == 0 for t in range(binnum_old + 1, len({hist})))",
